@@ -15,7 +15,7 @@ ASSUMPTIONS = ["the integrator-internal state after a fault (slope cache, contro
                "checked on the implementation (resumed run vs fault-free run at tolerance level)"]
 
 
-class Boom(ValueError):
+class Boom(Exception):
     pass
 
 
@@ -120,7 +120,10 @@ def check_fault(ctx, mname, method, direction, site, k, ref, kind="raise", event
         if site == "event":
             got = sorted(float(e.t) for e in ode.events)
             want = ref["event_times"]
-            ok_ev = len(got) == len(want) and all(abs(a - b) <= 1e-6 for a, b in zip(got, want))
+            # same events as the fault-free run; their times as accurate as the fault-free run's own (the step sequence after a
+            # resume may differ: the integrator's controller has seen the abandoned step)
+            true = ref["true_event_times"]
+            ok_ev = len(got) == len(want) and (len(true) != len(want) or all(abs(a - tt) <= 3 * abs(b - tt) + 1e-6 for a, b, tt in zip(got, want, true)))
             ctx.oracle("events-after-resume", ok_ev, dict(inp, events=got, fault_free_events=want), key="event-fault-leaves-dense-piece" if len(got) >= len(want) else "event-lost-after-event-fault",
                        what="after an event-function fault and resuming, events at %s; the fault-free run reports %s" % (got, want))
         exact_end = ref["sol"](ref["t"][-1])
@@ -173,6 +176,21 @@ def reference(method, direction):
     from scipy.integrate import solve_ivp
     r = solve_ivp(base_f, (ref["t"][0], ref["t"][-1]), ref["y"][0], method="DOP853", rtol=1e-12, atol=1e-13, dense_output=True)
     ref["sol"] = lambda x: r.sol(x)
+    # the true crossing times of the monitored event function (reference solution, bisection on a fine grid)
+    xs = np.linspace(float(ref["t"][0]), float(ref["t"][-1]), 4001)
+    gs = np.array([r.sol(x)[0] - 0.8 for x in xs])
+    true = []
+    for a, b, ga, gb in zip(xs[:-1], xs[1:], gs[:-1], gs[1:]):
+        if ga * gb < 0:
+            for _ in range(60):
+                m = 0.5 * (a + b)
+                gm = r.sol(m)[0] - 0.8
+                if ga * gm <= 0:
+                    b, gb = m, gm
+                else:
+                    a, ga = m, gm
+            true.append(0.5 * (a + b))
+    ref["true_event_times"] = sorted(true)
     tm = 0.5 * (ref["t"][:-1] + ref["t"][1:])
     ref["dense_err"] = float(np.max(np.abs(np.array([ode.sol(x) for x in tm]) - np.array([r.sol(x) for x in tm]))))
     return ref
@@ -214,6 +232,33 @@ def run(ctx):
             check_fault(ctx, mname, method, direction, "rhs", min(7, nf - 1), ref, kind="interrupt")
             ctx.count("family:" + mname)
             ctx.sample(dict(method=mname, direction=direction, rhs_evaluations=nf, steps=ref["steps"], fault_positions=ks[:8]), limit=4)
+    # the exception TYPE must not matter: a right-hand side that raises a ValueError once (a common Python error) is a failing call too
+    for mname, method in [("RK45CKSolver", I.RK45CKSolver), ("RK4Solver", I.RK4Solver), ("BackwardEuler", I.BackwardEuler)]:
+        for direction in (1, -1):
+            for k in ([3, 9] if ctx.quick() else [1, 3, 6, 9, 14, 20]):
+                n = [0]
+
+                def f_ve(t, y, n=n, k=k):
+                    i = n[0]
+                    n[0] += 1
+                    if i == k:
+                        raise ValueError("user right-hand side: value error at evaluation %d" % k)
+                    return base_f(t, y)
+                ode = build(method, direction, f_ve)
+                n[0] = 0
+                raised = None
+                try:
+                    ode.integrate()
+                except de.exception_types.FailedIntegration as e:
+                    raised = type(e.__cause__).__name__
+                except Exception as e:
+                    raised = "other:" + type(e).__name__
+                if n[0] <= k:
+                    continue                      # the run ended before evaluation k
+                ctx.oracle("any-exception-type-surfaces", raised == "ValueError", dict(kind="fault", method=mname, direction=direction, site="rhs", k=k, fault="ValueError", surfaced=raised, status=loopsim.status_code(ode)),
+                           key="user-valueerror-swallowed-inside-step" if raised is None else "any-exception-type-surfaces",
+                           what="the right-hand side raised ValueError at evaluation %d: the call %s" % (k, "completed as if nothing had happened (status %r)" % (loopsim.status_code(ode),) if raised is None else "surfaced %r" % raised))
+                ctx.count("valueerror-fault:%s" % ("swallowed" if raised is None else "surfaced"))
     # tolerances that cannot be met: a right-hand side that leaves its domain (NaN) under an adaptive explicit method must
     # end in the library's failure error, never in NaN rows recorded as a success
     for mname, method in [("RK45CKSolver", I.RK45CKSolver), ("DOPRI45", I.DOPRI45), ("RK8713MSolver", I.RK8713MSolver)]:
